@@ -9,5 +9,6 @@ CONSTANTS
 INIT Init
 NEXT Next
 VIEW View
-INVARIANTS NoSharing NoPanic CloneEqual Isolation NoRemnant
+INVARIANTS NoSharing
 ACTION_CONSTRAINT DumpEdge
+PROPERTIES NoPanicA CloneEqualA IsolationA NoRemnantA
